@@ -203,8 +203,7 @@ SIZE_BODIES = re.compile(r"(generic_grow|alloc_slice|prepare_allocation_range|fo
                          r"in_another_chunk|ArrayLayout::array|generic_with_capacity)")
 
 
-def r5_overflow(ctx, P):
-    R = "C07.R5"
+def r5_overflow(ctx, P, R="C07.R5"):
     ctx.rule(R, "checked size computations: the failure edge constructs capacity_overflow / invalid_slice_layout / None and "
                 "their results are never unwrapped")
     n = 0
@@ -214,13 +213,13 @@ def r5_overflow(ctx, P):
         for s, t in b.calls():
             f = t["f"]
             nm = f.get("name")
-            if nm in ("unwrap", "expect", "unwrap_or_default") and f.get("krate") == "core":
+            if nm in ("unwrap", "expect", "unwrap_or_default", "unwrap_or", "unwrap_or_else") and f.get("krate") == "core":
                 a = b.prov_operand(t["args"][0], s)
                 src = [c for c in calls_in(a) if c[1].split("::")[-1] in CHECKED_NAMES]
                 if src:
                     n += 1
-                    ctx.inst(R, b.path, False, f"{nm}() on the result of {src[0][1]}: an overflowing size panics instead of being "
-                             "reported as an allocation error", where=b.where(s), site=f"{nm} on {src[0][1].split('::')[-1]}")
+                    ctx.inst(R, b.path, False, f"{nm}() on the result of {src[0][1]}: an overflowing size panics or is silently replaced "
+                             "instead of being reported as an allocation error", where=b.where(s), site=f"{nm} on {src[0][1].split('::')[-1]}")
             if nm in CHECKED_NAMES and t["ret"] is not None:
                 out_ty = ""
                 # only Option/Result producers
